@@ -149,7 +149,7 @@ def features(ast) -> tuple:
             for x in loop.body.items)
 
     def w(seq, in_loop, is_top, tail_of_loop, depth, tail_via_fork=False,
-          tailpos=False):
+          tailpos=False, seqtail=True, tail_chain=0):
         items = seq.items
         for i, it in enumerate(items):
             last = i == len(items) - 1
@@ -214,8 +214,8 @@ def features(ast) -> tuple:
                                     # no job iterates the loop, at the end
                                     # of a sequence: it degenerates to an
                                     # XOR with an empty alternative)
-                                    if len(b.items) == 1 and last and (
-                                            is_top or not tail_of_loop):
+                                    if len(b.items) == 1 and last and \
+                                            seqtail:
                                         f.add("empty_break_seqlast")
                     if in_loop:
                         f.add("break_in_nested")
@@ -223,6 +223,10 @@ def features(ast) -> tuple:
                         f.add("break_loop_tail_of_loop")
                         if tailpos:
                             f.add("break_loop_tail_of_loop_jobtail")
+                        if tail_chain >= 1:
+                            # the enclosing loop is itself the tail of a
+                            # loop body (three levels)
+                            f.add("break_loop_tail_of_loop_deep")
                         if any(isinstance(x, Fork) and any(
                                 len(b.items) == 1
                                 and isinstance(b.items[0], Break)
@@ -233,7 +237,8 @@ def features(ast) -> tuple:
                 if depth > 0 and not in_loop:
                     f.add("loop_in_fork")
                 w(it.body, True, False, True, depth, False,
-                  tailpos and last)
+                  tailpos and last, seqtail and last,
+                  tail_chain + 1 if (last and tail_of_loop) else 0)
             elif isinstance(it, Fork):
                 f.add(it.kind)
                 f.add(f"depth{depth + 1}")
@@ -250,7 +255,7 @@ def features(ast) -> tuple:
                         f.add("kill")
                     w(b, in_loop, False, False, depth + 1,
                       last and (tail_of_loop or tail_via_fork),
-                      tailpos and last)
+                      tailpos and last, True, 0)
     w(ast, False, True, False, 0, False, True)
     names = ps.event_names(ast)
     if any(not (n.startswith("E") and n[1:].isdigit()) for n in names):
